@@ -15,6 +15,27 @@ from lib import (Check, COMMON_TRUSTED, NCPU, REPO, VERIF, coq_bool, coq_list, c
                  parse_nat_list, run_coq_files, run_py)
 
 PROP = "C07"
+
+# (round 3) Coq parses string literals slowly (~20 kB/s) and a trace names most lines twice (in the operations and in the real
+# file map): inside one generated case file every distinct string is defined once (`Definition s_<k> := "..."`) and referred to
+# by name; the real content of a file is `jn [<its lines>]` = the exact text ("\n".join(lines)).
+_lib_coq_str = coq_str
+_INTERN: dict | None = None
+
+
+def coq_str(x: str) -> str:          # noqa: F811  (shadows lib.coq_str on purpose)
+    if _INTERN is None or len(x) < 6:
+        return _lib_coq_str(x)
+    if x not in _INTERN:
+        _INTERN[x] = f"s_{len(_INTERN)}"
+    return _INTERN[x]
+
+
+def coq_text(content: str) -> str:
+    """a file's content, line by line (exactly content.split("\n") joined by "\n" again)"""
+    if _INTERN is None:
+        return _lib_coq_str(content)
+    return f"(jn {coq_list(coq_str(l) for l in content.split(chr(10)))})"
 EMPTY_AFTER_RUN_ID = "C07-empty-body-after-run"     # id used if fix dcc62bc is ever reverted
 OPTRACE = VERIF / "harness" / "optrace.py"
 
@@ -104,6 +125,8 @@ def op_term(op):
         return f"OCount {coq_str(op[1])} {coq_str(op[2])}"
     if k == "callf":
         return f"OCallF {coq_str(op[1])} {coq_str(op[2])} {coq_str(op[3])}"
+    if k == "def":
+        return f"ODef {coq_str(op[1])}"
     raise Unsupported(f"operation {k} is not part of Model/Alloc.v")
 
 
@@ -155,7 +178,7 @@ def case_term(job, res):
         else:
             ops.append(op_term(op))
     cfg = res["cfg"] or default_cfg(job)
-    files = coq_list(f"({coq_str(k)}, {coq_str(v)})" for k, v in (res.get("files") or {}).items())
+    files = coq_list(f"({coq_str(k)}, {coq_text(v)})" for k, v in (res.get("files") or {}).items())
     return (f'mkCase {cfg_term(cfg)} {coq_list(ops)} {"(Some " + bdata_term(b) + ")" if b else "None"} '
             f'{coq_bool(res["ok"])} {coq_str(res.get("exc") or "")} {coq_bool(bool(res.get("jmc")))} {files}')
 
@@ -165,31 +188,40 @@ COQ_HEADER = ("From Coq Require Import ZArith String List.\n"
               "Import ListNotations.\nOpen Scope string_scope.\n")
 
 
-def eval_trace_cases(terms: list[str], per_file: int = 12, prefix: str = "trace"):
-    """-> dict(mismatch=[...], undisciplined=[...], not_closed=[...], illegal=[...], codes={i: code}), errors"""
-    files = []
-    for fi, start in enumerate(range(0, len(terms), per_file)):
-        chunk = terms[start:start + per_file]
-        body = COQ_HEADER + "Definition cases := [\n" + ";\n".join(chunk) + "\n].\n"
-        body += ("Eval vm_compute in codes cases.\nEval vm_compute in undisciplined cases.\n"
-                 "Eval vm_compute in not_closed cases.\nEval vm_compute in illegal_paths cases.\n")
+def eval_trace_cases(pairs: list, per_file: int = 12, prefix: str = "trace"):
+    """pairs = [(job, res)] (every one accepted by case_term) -> dict(mismatch=[...], undisciplined=[...], not_closed=[...], illegal=[...],
+    fileless=[...], codes={i: code}), errors.
+    One replay + one build per case (Run.C07.summary = [case_code; undisciplined; not closed; illegal path; fileless call])."""
+    global _INTERN
+    files, terms = [], pairs
+    for fi, start in enumerate(range(0, len(pairs), per_file)):
+        _INTERN = {}
+        try:
+            chunk = [case_term(job, res) for job, res in pairs[start:start + per_file]]
+            defs = "".join(f"Definition {name} := {_lib_coq_str(text)}.\n" for text, name in _INTERN.items())
+        finally:
+            _INTERN = None
+        body = (COQ_HEADER + "Definition jn := String.concat nls.\n" + defs + "Definition cases := [\n" + ";\n".join(chunk)
+                + "\n].\nEval vm_compute in summaries cases.\n")
         files.append((f"{prefix}_{fi}.v", body))
     outs = run_coq_files(PROP, files, timeout=900, clean=False)
-    res = dict(mismatch=[], undisciplined=[], not_closed=[], illegal=[], codes={})
+    res = dict(mismatch=[], undisciplined=[], not_closed=[], illegal=[], fileless=[], codes={})
     errs = []
     for fi, (ok, out) in enumerate(outs):
-        if not ok:
+        n_here = len(terms[fi * per_file:(fi + 1) * per_file])
+        rows = re.findall(r"\[((?:\s*\d+\s*;?)+)\]", out[out.index("="):]) if ok and "=" in out else []
+        if not ok or len(rows) != n_here:
             errs.append(f"{files[fi][0]}: {out[-2000:]}")
             continue
-        parts = out.split(": list nat")
-        codes = parse_nat_list(parts[0])
-        for j, cde in enumerate(codes):
-            if cde:
-                res["mismatch"].append(fi * per_file + j)
-                res["codes"][fi * per_file + j] = cde
-        for name, part in zip(("undisciplined", "not_closed", "illegal"), parts[1:4]):
-            for i in parse_nat_list(part):
-                res[name].append(fi * per_file + i)
+        for j, row in enumerate(rows):
+            code, und, ncl, ill, fl = [int(x) for x in re.findall(r"\d+", row)]
+            k = fi * per_file + j
+            if code:
+                res["mismatch"].append(k)
+                res["codes"][k] = code
+            for name, flag in (("undisciplined", und), ("not_closed", ncl), ("illegal", ill), ("fileless", fl)):
+                if flag:
+                    res[name].append(k)
     return res, errs
 
 
@@ -235,6 +267,58 @@ time title tm tp transfer trigger version w waypoint weather whitelist worldbord
 MC_LINE_BREAK = re.compile(r"\r\n|\n|\r")
 
 
+# (round 3) `execute ... if|unless <kind> ...`: the word after a top-level `if` / `unless` must be a condition kind (a @lazy function
+# used as a condition was expanded in place: `execute if say hi run ...`, which Minecraft cannot parse: the whole file fails to load)
+CONDITION_KINDS = {"biome", "block", "blocks", "data", "dimension", "entity", "function", "loaded", "predicate", "score", "items", "stopwatch"}
+
+
+def top_level_words(text: str) -> list[str]:
+    """words separated by blanks outside brackets and quotes"""
+    out, cur, depth, quote, esc = [], "", 0, "", False
+    for ch in text:
+        if quote:
+            cur += ch
+            if esc:
+                esc = False
+            elif ch == "\\":
+                esc = True
+            elif ch == quote:
+                quote = ""
+            continue
+        if ch in "\"'":
+            quote = ch
+        elif ch in "[{(":
+            depth += 1
+        elif ch in "]})":
+            depth = max(0, depth - 1)
+        if ch == " " and depth == 0:
+            out.append(cur)
+            cur = ""
+        else:
+            cur += ch
+    out.append(cur)
+    return out
+
+
+def bad_condition(line: str, extra_kinds=()):
+    """the first `if|unless <word>` of an execute line (before its `run`) whose <word> is no condition kind, or None"""
+    body = line[1:] if line.startswith("$") else line
+    if not body.startswith("execute "):
+        return None
+    ws = top_level_words(body)
+    for i, w in enumerate(ws[1:-1], 1):
+        if w == "run":
+            return None
+        if w in ("if", "unless") and ws[i - 1] not in ("score", "storage", "bossbar") and "$(" not in ws[i + 1]:
+            if ws[i + 1] not in CONDITION_KINDS and ws[i + 1] not in extra_kinds:
+                return f"{w} {ws[i + 1]}"
+    return None
+
+
+def custom_conditions(job) -> set:
+    return set(re.findall(r"^[ \t]*#condition[ \t]+(\S+)", job.get("header") or "", re.M))
+
+
 def custom_commands(job) -> set:
     return set(re.findall(r"^[ \t]*#command[ \t]+(\S+)", job.get("header") or "", re.M))
 
@@ -275,6 +359,7 @@ def oracle(job, res) -> list[dict]:
     fails = []
     src = (job.get("src") or "") + "\n" + (job.get("header") or "")
     extra_commands = custom_commands(job)
+    extra_conditions = custom_conditions(job)
     names_legal = (LEGAL_NS.match(ns) and all(legal_path(cfg[k]) for k in ("private", "load", "tick"))
                    and all(LEGAL_NS.match(o) for o in cfg["overrides"]))
 
@@ -312,6 +397,11 @@ def oracle(job, res) -> list[dict]:
                                       # JMC.put("abc") and friends: the user supplied exactly this line as one string
                                       user_literal=any(q + line + q in src for q in ('"', "'"))))
                     break
+                bc = bad_condition(line, extra_conditions)
+                if bc:
+                    fails.append(dict(kind="not-a-condition", path=path, line_no=i + 1, line=line[:300], condition=bc,
+                                      user_literal=bc in src))
+                    break
                 if line != "" and (line.strip() == "" or re.search(r"(^| )run ?$", line)):
                     # a line that is not a command: blank, or an `execute ... run` with nothing after it
                     fails.append(dict(kind="incomplete-command", path=path, line_no=i + 1, line=line[:300]))
@@ -327,6 +417,8 @@ def oracle(job, res) -> list[dict]:
                 fails.append(dict(kind="dangling-reference", path=path, ref=("#" if kind == "tag" else "") + loc,
                                   user_literal=literal, embedded=bool(emb),
                                   line=next((l for l in content.split("\n") if loc in l), "")[:300]))
+    if not res.get("unsupported"):
+        fails.extend(called_without_file(res))
     load_tag = files.get(f"VIRTUAL/data/minecraft/tags/{ff}/load.json")
     if load_tag is None or f'"{ns}:{cfg["load"]}"' not in load_tag:
         fails.append(dict(kind="load-not-registered", tag=load_tag))
@@ -689,6 +781,163 @@ def line_char_jobs(rng, tier):
     return out
 
 
+
+# ---- strengthening round 3: every decorator x every reference form.  A name can be DEFINED without a function file being
+# written for it (@lazy, @if: expanded in place; a json name); a reference JMC cannot expand in place (call before the
+# definition, `schedule function`, a function-typed built-in argument passed by name, `name() with ...`, a function-table
+# entry) must then be refused — accepted => closed.  `@T@` spelling of the target at the reference, `@LOC@` its location.
+DECO_DEFS = {
+    "plain": 'function @N@() { say "d1"; say "d2"; }',
+    "plain-empty": 'function @N@() { }',
+    "lazy": '@lazy function @N@() { say "d1"; }',
+    "lazy-2": '@lazy function @N@() { say "d1"; say "d2"; }',
+    "lazy-param": '@lazy function @N@(a) { say "$a"; }',
+    "lazy-empty": '@lazy function @N@() { }',
+    "if1": '@if(1) function @N@() { say "d1"; say "d2"; }',
+    "if0": '@if(0) function @N@() { say "d1"; }',
+    "add-tick": '@add(@TICK@) function @N@() { say "d1"; }',
+    "add-load": '@add(@LOAD@) function @N@() { say "d1"; }',
+    "add-func": '@add(base0) function @N@() { say "d1"; }',                               # (function base0 is declared at top level)
+    "private": '@private function @N@() { say "d1"; }',
+    "root": '@root function @N@() { say "d1"; }',
+    "json": 'new advancements(@N@) {"criteria": {"a": {"trigger": "minecraft:tick"}}}',      # a defined NAME that is no function
+    "none": '',                                                                           # never defined
+}
+# reference forms; `load: True` = a load-level statement (not inside function u)
+REF_FORMS = {
+    "call": ('@T@();', False), "call-twice": ('@T@(); say "mid"; @T@();', False),
+    "exec": ('execute as @a at @s run @T@();', False),
+    "sched": ('schedule function @T@() 5t;', False), "sched-append": ('schedule function @T@() 2s append;', False),
+    "sched-clear": ('schedule clear @T@();', False),
+    "with": ('@T@() with {x: 1};', False), "with-storage": ('@T@() with mystore::a.b;', False), "with-list": ('@T@() with [$a, $b];', False),
+    "with-entity": ('@T@() with @s::Inventory;', False), "exec-with": ('execute as @a run @T@() with {x: 1};', False),
+    "macro-pos": ('@T@({"x":"1"});', False), "macro-kw": ('@T@(x="k");', False),
+    "cond": ('if (@T@()) { say "c1"; say "c2"; }', False), "cond-not": ('if (!@T@() && $x > 1) { say "c1"; say "c2"; }', False),
+    "arrow": ('execute as @a run { @T@(); say "x"; }', False), "if-body": ('if ($x > 1) { @T@(); say "y"; } else { @T@(); }', False),
+    "while-body": ('while ($x > 1) { @T@(); $x -= 1; }', False), "switch-body": ('switch($x) { case 1: @T@(); case 2: say "2"; @T@(); }', False),
+    "sched-block": ('schedule 5t { @T@(); say "z"; }', False),
+    "hardcode": ('Hardcode.repeat((i)=>{ @T@(); schedule function @T@() 2t; }, start=1, stop=3);', False),
+    "funcmap-trigger": ('Trigger.setup(trg1, {1: @T@, 2: ()=>{ say "k"; }});', True), "funcmap-rc": ('RightClick.setup(rc1, {1: @T@});', True),
+    "add-target": ('@add(@T@) function ext0() { say "e"; }', True),
+    "load-call": ('@T@();', True), "load-sched": ('schedule function @T@() 5t;', True), "load-if": ('if ($q > 1) { @T@(); say "w"; }', True),
+    "arrow-builtin": ('Player.firstJoin(()=>{ @T@(); schedule function @T@() 3t; });', True),
+    "click": ('TextProp.clickCommand("p1", ()=>{ @T@(); });\nfunction clk() { Text.tellraw(@a, "&<p1>click"); }', True),
+    "tag": ('new tags.functions(mytag) {"values": ["@LOC@"]}\nfunction tg() { function #@NS@:mytag; }', True),
+    "reward": ('new advancements(adv1) {"criteria": {"a": {"trigger": "minecraft:tick"}}, "rewards": {"function": "@LOC@"}}', True),
+    "vanilla": ('function @LOC@;', False),
+}
+DECO_PLACEMENTS = ["top", "class", "class-this", "nested-class", "override-class"]      # override-class: `#override minecraft`
+
+
+def deco_ref_program(deco, form_text, is_load, placement, order, cert, ns, extra_prelude=""):
+    """one definition under `deco` and one reference of form `form_text`, reference before ("before") or after the definition"""
+    name = "greet"
+    d = DECO_DEFS[deco].replace("@N@", name).replace("@TICK@", cert["TICK"].replace("/", ".")).replace("@LOAD@", cert["LOAD"].replace("/", "."))
+    classes = {"top": [], "class": ["lib"], "class-this": ["lib"], "nested-class": ["Lib.core", "in"], "override-class": ["minecraft", "util"]}[placement]
+    path = "/".join(c.lower().replace(".", "/") for c in classes + [name])
+    loc_ns = ns
+    if placement == "override-class":
+        loc_ns, path = "minecraft", path[len("minecraft/"):]
+    spell = ".".join(classes + [name])
+    if deco == "json":
+        spell, path = "advancements." + spell, "advancements/" + path
+    inside = placement == "class-this" and not is_load       # the referencing function is a member of the same class: `this.`
+    ref = form_text.replace("@T@", "this." + name if inside and deco != "json" else spell).replace("@LOC@", f"{loc_ns}:{path}").replace("@NS@", ns)
+    ref_stmt = ref if is_load else f"function u() {{ {ref} }}"
+
+    def wrap(parts):
+        for c in reversed(classes):
+            parts = [f"class {c} {{ " + " ".join(parts) + " }"]
+        return parts
+    if inside:
+        members = [ref_stmt, d] if order == "before" else [d, ref_stmt]
+        body = wrap([m for m in members if m])
+    else:
+        dd = wrap([d]) if d and classes else ([d] if d else [])
+        body = ([ref_stmt] + dd) if order == "before" else (dd + [ref_stmt])
+    return extra_prelude + "\n".join(body)
+
+
+def deco_ref_jobs(rng, tier, registry, probe_hits):
+    """-> [(origin, job)].  quick: every (decorator, form) pair once with placement / order / names drawn from ck.rng (+ every pair
+    of the file-less decorators a second time with the other order); thorough: every placement x order."""
+    forms = dict(REF_FORMS)
+    by_name = {e["call_string"]: e for e in registry}
+    builtin_forms = {}
+    for name, job in sorted(probe_hits.items()):
+        e = by_name[name]
+        for k, ty in e["arg_type"].items():
+            if ty in ("FUNC", "_FUNC_CALL") and k in job["_args"]:
+                args = dict(job["_args"], **{k: "@T@"})
+                builtin_forms[f"builtin:{name}:{k}"] = (probe_program(e, args), True)
+    # hand-written by-name forms for built-ins whose registry probe does not compile
+    builtin_forms.update({
+        "builtin:Timer.add": ('Timer.add(cd1, runOnce, @a, @T@);', True), "builtin:Timer.add:tick": ('Timer.add(cd2, runTick, @a, @T@);', True),
+        "builtin:Player.die": ('Player.die(onDeath=@T@, onRespawn=()=>{ @T@(); });', True),
+        "builtin:Player.onEvent": ('Player.onEvent(used:carrot_on_a_stick, @T@);', True),
+        "builtin:Raycast.simple": ('function rc() { Raycast.simple(onHit=@T@, onStep=()=>{ @T@(); }); }', True),
+        "builtin:Item.createUse": ('Item.createUse(myWand, carrot_on_a_stick, "Wand", onClick=@T@);', True),
+        "builtin:Recipe.table": ('Recipe.table({"type": "minecraft:crafting_shapeless", "ingredients": [{"item": "minecraft:oak_planks"}], '
+                                 '"result": {"item": "minecraft:diamond", "count": 5}}, baseItem=knowledge_book, onCraft=@T@);', True),
+    })
+    forms.update(builtin_forms)
+    fileless = ("lazy", "lazy-2", "lazy-param", "lazy-empty", "if1", "if0", "json", "none")
+    out, k = [], 0
+    for deco in DECO_DEFS:
+        for fname, (ftext, is_load) in forms.items():
+            if tier == "quick":
+                combos = [(rng.choice(DECO_PLACEMENTS), rng.choice(["before", "after"]))]
+                if deco in fileless:
+                    combos.append((rng.choice(DECO_PLACEMENTS[:2]), "after" if combos[0][1] == "before" else "before"))
+            else:
+                combos = [(pl, od) for pl in DECO_PLACEMENTS for od in ("before", "after")]
+            for placement, order in combos:
+                if deco in ("private", "root") and placement == "top" and tier == "quick":
+                    placement = "class"
+                k += 1
+                cert = CERTS[k % len(CERTS)]
+                ns = NAMESPACES[k % len(NAMESPACES)]
+                pf = [48, 61, 48, 33, 15, 48][k % 6] if not re.search(r"with|macro|\$function", fname + ftext) else [48, 61, 71][k % 3]
+                prelude = 'function base0() { say "b"; }\n' if deco == "add-func" else ""
+                src = deco_ref_program(deco, ftext, is_load, placement, order, cert, ns, prelude)
+                out.append((f"decoref:{deco}:{fname}:{placement}:{order}", dict(src=src, cert=cert_text(cert), pack_format=pf, namespace=ns,
+                                                                              header="#override minecraft" if placement == "override-class" else None)))
+    return out
+
+
+def decoref_coverage(jobs, results, replay_skip, ev):
+    """measured: the decorator x reference matrix — per decorator how many compiles were accepted / refused, and in how many traces a
+    recorded call names a definition WITHOUT a file (defined_file_pos entry, no functions entry at build time: must be refused)"""
+    per, forms, fileless, n = {}, set(), 0, 0
+    for i, ((origin, job), res) in enumerate(zip(jobs, results)):
+        if not origin.startswith("decoref:"):
+            continue
+        n += 1
+        _, deco, rest = origin.split(":", 2)
+        forms.add(rest.rsplit(":", 2)[0])
+        d = per.setdefault(deco, dict(accepted=0, refused=0, crashed=0))
+        d["accepted" if res["ok"] else "refused" if res.get("jmc") else "crashed"] += 1
+        defs = {op[1] for op in res["ops"] if op[0] == "def"}
+        stored = {op[1] for op in res["ops"] if op[0] == "fset"}
+        if any(op[0] == "called" and op[1] in defs and op[1] not in stored for op in res["ops"]):
+            fileless += 1
+    return dict(compiles=n, decorators=len(per), reference_forms=len(forms), per_decorator=per, replayed_in_coq=n - len(replay_skip),
+                traces_calling_a_fileless_definition=fileless, coq_fileless_called_traces=len(ev.get("fileless", [])))
+
+
+def called_without_file(res):
+    """(round 3) C07_user_call_resolves / C07_accepted_no_fileless_call on the REAL output: every name recorded in functions_called by an
+    accepted compile has its function file (unless its namespace is #link-ed); says whether the name is defined (defined_file_pos)."""
+    cfg, files = res["cfg"], res["files"]
+    defs = {op[1] for op in res["ops"] if op[0] == "def"}
+    out = []
+    for op in res["ops"]:
+        if op[0] == "called" and op[1].split("/", 1)[0].strip() not in cfg["links"] and func_file(cfg, op[1]) not in files:
+            out.append(dict(kind="called-function-without-file", called=op[1], from_prefix=op[2], defined_without_file=op[1] in defs,
+                            missing=func_file(cfg, op[1])))
+    return out
+
+
 # the accepted variants of every shape are compiled under these (pack_format, header) strategies, names rotate through CERTS
 EMPTY_STRATEGIES = [(15, None), (48, None), (48, "#forcebst"), (7, None), (61, None), (33, "#forcebst")]
 
@@ -802,6 +1051,39 @@ HAND_PROBES = {
     "Raycast twice": ('function f() { Raycast.simple(onHit=()=>{ say "h1"; say "h2"; }, onStep=()=>{ say "s1"; say "s2"; }, onBeforeStep=()=>{ say "b"; say "c"; }); '
                       'Raycast.simple(onHit=()=>{ say "h3"; say "h4"; }); }', 48),
 }
+
+
+# (round 3) a user-defined TICK function x every way build() itself writes to the tick function (`ticks`: Timer.add, Trigger.setup ...;
+# `after_ticks`: @add(TICK)), each alone and combined, definition before / after the generator, zero-command body: the assembled
+# function must be replayed exactly by Model.Alloc.st_ticks / st_after_ticks (and C08's build_keeps_stored / build_tick_has_generated)
+TICK_GENERATORS = {
+    "add": '@add(@TICK@) function added1() { say "a1"; }',
+    "add2": '@add(@TICK@) function added1() { say "a1"; }\nclass k { @add(@TICK@) function added2() { say "a2"; } }',
+    "timer": 'Timer.add(cd1, runTick, @a, ()=>{ say "t1"; say "t2"; });',
+    "trigger": 'Trigger.setup(trg1, {1: ()=>{ say "k1"; say "k2"; }});',
+    "rightclick": 'RightClick.setup(rc1, {1: ()=>{ say "r1"; say "r2"; }});',
+    "die": 'Player.die(onDeath=()=>{ say "d1"; say "d2"; }, onRespawn=()=>{ say "d3"; say "d4"; });',
+    "gui": HAND_PROBES["GUI.*"][0],
+}
+TICK_USER = ['function @TICK@() { say "user tick"; }', 'function @TICK@() { }', 'function @TICK@() { say "u1"; if ($x > 1) { say "u2"; say "u3"; } }', ""]
+
+
+def tick_shape_jobs(rng, tier):
+    out, k = [], 0
+    gens = list(TICK_GENERATORS)
+    combos = [[g] for g in gens] + [["add", "timer"], ["timer", "add"], ["add2", "trigger", "die"], ["gui", "add"]]
+    for user in TICK_USER:
+        for combo in combos:
+            orders = ["user-first", "user-last"] if tier != "quick" else [rng.choice(["user-first", "user-last"])]
+            for order in orders:
+                k += 1
+                cert = CERTS[k % len(CERTS)]
+                parts = [TICK_GENERATORS[g] for g in combo]
+                parts = ([user] + parts) if order == "user-first" else (parts + [user])
+                src = "\n".join(x for x in parts if x).replace("@TICK@", cert["TICK"].replace("/", "."))
+                out.append((f"tickshape:{'+'.join(combo)}:{order}:{TICK_USER.index(user)}",
+                            dict(src=src, cert=cert_text(cert), pack_format=[48, 15, 61][k % 3], namespace=NAMESPACES[k % len(NAMESPACES)])))
+    return out
 
 
 def probe_program(e, args, args2=None):
@@ -1019,7 +1301,14 @@ def main(tier: str) -> int:
         "no `execute ... run` with nothing behind it) are checked by the direct scan of the real output only; Model/Alloc.v's "
         "scanners and C07_lines speak about word-separated references and non-empty newline-free lines",
     ]
+    import time
+    t_phase, phases = [time.time()], {}
+
+    def phase(name):
+        phases[name] = round(time.time() - t_phase[0], 1)
+        t_phase[0] = time.time()
     pr = ck.proof(extra_targets=["Run/C07.vo"])
+    phase("proof")
     ck.cov["core_closure_theorems"] = [t for t in pr.get("theorems", []) if t.startswith(("C07_core_", "C07_calls_", "C07_macro_"))]
     from lib import gen_dir
     gen_dir(PROP)
@@ -1041,6 +1330,7 @@ def main(tier: str) -> int:
         ck.violation(dict(kind="correspondence-differs", what="format_func_path differs from Model.ResLoc.format_func_path",
                           cases=[dict(input=q, real=r) for q, r in fm[:5]], n=len(fm)), no_input=True)
 
+    phase("unit")
     # ---- traced compiles
     jobs = gather_jobs(ck, tier)
     registry = run_py(OPTRACE, {"mode": "registry"})
@@ -1074,16 +1364,34 @@ def main(tier: str) -> int:
         if r["ok"]:
             n_twin_ok += 1
             jobs.append((origin, job))
+    phase("probes+twins")
+    # (round 3) every decorator x every reference form (incl. every function-typed built-in argument passed by name)
+    decoref = deco_ref_jobs(ck.rng, tier, registry, probe_hits)
+    jobs.extend(decoref)
+    jobs.extend(tick_shape_jobs(ck.rng, tier))
     results = trace_jobs([j for _, j in jobs])
 
+    phase("trace")
+    # the Coq replay of the decorator x reference matrix: quick = a third of it drawn from ck.rng plus every compile the direct
+    # scan objects to (the scan and called_without_file look at ALL of them); thorough = all
+    replay_skip = set()
+    if tier == "quick":
+        for i, ((origin, job), res) in enumerate(zip(jobs, results)):
+            if origin.startswith("decoref:") and ck.rng.random() >= 0.34 and not (res["ok"] and res.get("cfg") and oracle(job, res)):
+                replay_skip.add(i)
     terms, tidx, unsupported = [], [], []
     for i, ((origin, job), res) in enumerate(zip(jobs, results)):
+        if i in replay_skip:
+            continue
         try:
-            terms.append(case_term(job, res))
+            case_term(job, res)              # (only to learn whether the model covers this compile; the text is built per case file)
+            terms.append((job, res))
             tidx.append(i)
         except Unsupported as e:
             unsupported.append((origin, str(e)))
-    ev, errs = eval_trace_cases(terms, per_file=10)
+    phase("terms")
+    ev, errs = eval_trace_cases(terms, per_file=14)
+    phase("coq-replay")
     for e in errs:
         ck.violation(dict(kind="correspondence-file-failed", log=e), no_input=True)
 
@@ -1105,6 +1413,7 @@ def main(tier: str) -> int:
             for f in real:
                 report_failure(ck, job, res, origin, f, reported)
 
+    phase("scan")
     # ---- correspondence verdicts
     def unexplained(indices):
         return [tidx[k] for k in indices if tidx[k] not in failing]
@@ -1148,6 +1457,7 @@ def main(tier: str) -> int:
         disagreements_checked=len(mism), undisciplined=len(ev["undisciplined"]), not_closed=len(ev["not_closed"]),
         failing_inputs=n_fail_inputs, user_literal_references_skipped=literal_skipped,
         empty_private_functions=empty_private_coverage(jobs, results), builtin_probes_emptied=n_emptied_probes,
+        decorator_x_reference=decoref_coverage(jobs, results, replay_skip, ev), phase_seconds=phases,
         twin_probes=dict(generated=len(twins), accepted=n_twin_ok,
                          builtins=len({o.split(":")[1] for (o, _), r in zip(twins, tres) if r["ok"]})),
         convention_mode="strict (repaired)" if strict else "pinned (accepts 'a..b')",
